@@ -165,7 +165,8 @@ def _build_module(gen, plain=False):
         if gen.get("mtype", "default") != "default":
             kw["matrix_type"] = MT[gen["mtype"]]
     if gen["op"] == "general":
-        Ke = np.array(gen["elmat"], dtype=xdt)
+        kdt = int if gen.get("kdtype", gen.get("dtype")) == "int" else float
+        Ke = np.array(gen["elmat"], dtype=kdt)
         m = pm.AssembleGeneral(s, domain=dom, element_matrix=Ke, **kw)
     elif gen["kind"] == "stiffness":
         m = pm.AssembleStiffness(s, domain=dom, e_modulus=float(gen["E"]), poisson_ratio=float(gen["nu"]),
@@ -782,8 +783,16 @@ def gen_general(ctx, exact):
         bcdiag = rng.choice(["default", None, None, 1, 0, 7, -2])
     else:
         bcdiag = rng.choice(["default", None, 1.0, 0.0, rng.uniform(-3, 3)])
+    dt = "int" if (exact and rng.random() < 0.3) else "float"
+    kdt = dt
+    if exact and dt == "float" and rng.random() < 0.35:
+        # an INTEGER-typed element matrix (a stencil) scaled by non-integer (dyadic) values: x_e * K_e must not be truncated
+        kdt = "int"
+        x = [rng.choice([-1.5, -0.5, 0.25, 0.5, 0.75, 1.0, 1.5, 2.25, 0.0]) for _ in range(nel)]
+        if isinstance(bcdiag, int) and rng.random() < 0.5:
+            bcdiag = None
     gen = {"op": "general", "exact": bool(exact), "nelx": nelx, "nely": nely, "nelz": nelz, "s": [1.0, 1.0, 1.0],
-           "elmat": Ke, "dtype": "int" if (exact and rng.random() < 0.3) else "float", "x": x,
+           "elmat": Ke, "dtype": dt, "kdtype": kdt, "x": x,
            "bc": bc, "bc_np": bool(bc is not None and rng.random() < 0.4), "bckind": bckind, "bcdiag": bcdiag,
            "addc": gen_addc(rng, n, exact, 2.0), "mtype": rng.choice(["default", "csc", "csr", "coo", "coo"])}
     return gen
@@ -831,7 +840,25 @@ def gen_physical(ctx, kind, dim):
                 "bc": bc, "bc_np": bool(bc is not None and rng.random() < 0.4), "bckind": bckind,
                 "bcdiag": rng.choice(["default", "default", None, 1.0, 0.0, rng.uniform(0.1, 5)]),
                 "addc": gen_addc(rng, n, False, 1.0), "mtype": rng.choice(["default", "csc", "csr", "coo"])})
+    if rng.random() < 0.3:
+        rescale_units(rng, gen)
     return gen
+
+
+def rescale_units(rng, gen):
+    """the same problem in other units (exact power-of-two factors): micrometre elements, material data of 1e-9 or 1e11.
+    Nothing in the assembly is allowed to depend on the absolute magnitude of the element-matrix entries"""
+    fs = 2.0 ** rng.choice([-20, -17, -10, 7])
+    fm = 2.0 ** rng.choice([-40, -30, 0, 36])
+    gen["s"] = [float(v) * fs for v in gen["s"]]
+    if gen["kind"] == "stiffness":
+        gen["E"] = float(gen["E"]) * fm
+    else:
+        gen["mat"] = float(gen["mat"]) * fm
+    gen["addc"] = None
+    if not (gen.get("bcdiag") in ("default", None)):
+        gen["bcdiag"] = "default"
+    gen["units"] = [fs, fm]
 
 
 # ------------------------------------------------------------------------------------------------
@@ -1014,6 +1041,10 @@ def elmat_gens(ctx):
                 gen_material(rng, kind, dim, gen)
                 if kind == "stiffness" and dim == 2 and rng.random() < 0.2:
                     gen["plane"] = rng.choice(["stress", "strain", "STRESS", "my plane-strain"])
+                if rng.random() < 0.3:
+                    gen["addc"], gen["bcdiag"] = None, "default"
+                    rescale_units(rng, gen)
+                    gen.pop("addc"); gen.pop("bcdiag")
                 yield gen
     # error cases of the element matrix
     base = {"op": "elmat", "kind": "stiffness", "nelx": 1, "nely": 1, "nelz": 0, "s": [1.0, 0.5, 2.0], "E": 1.0, "nu": 0.3}
